@@ -177,7 +177,9 @@ impl Decodable for WriteEvent {
         let mut op: EventKind = Default::default();
         op.decode(&mut *reader).await?;
         match op {
-            EventKind::Noop => panic!("attempt to decode a noop"),
+            EventKind::Noop => {
+                return Err(Error::other("attempt to decode a noop event"));
+            }
             EventKind::CreateVault => {
                 let length = reader.read_u32().await?;
                 let buffer = reader.read_bytes(length as usize).await?;
@@ -334,7 +336,9 @@ impl Decodable for AccountEvent {
         let mut op: EventKind = Default::default();
         op.decode(&mut *reader).await?;
         match op {
-            EventKind::Noop => panic!("attempt to decode a noop"),
+            EventKind::Noop => {
+                return Err(Error::other("attempt to decode a noop event"));
+            }
             EventKind::RenameAccount => {
                 *self =
                     AccountEvent::RenameAccount(reader.read_string().await?);
@@ -421,7 +425,9 @@ impl Decodable for DeviceEvent {
         let mut op: EventKind = Default::default();
         op.decode(&mut *reader).await?;
         match op {
-            EventKind::Noop => panic!("attempt to decode a noop"),
+            EventKind::Noop => {
+                return Err(Error::other("attempt to decode a noop event"));
+            }
             EventKind::TrustDevice => {
                 let len = reader.read_u32().await?;
                 let buf = reader.read_bytes(len as usize).await?;
@@ -487,7 +493,9 @@ impl Decodable for FileEvent {
         let mut op: EventKind = Default::default();
         op.decode(&mut *reader).await?;
         match op {
-            EventKind::Noop => panic!("attempt to decode a noop"),
+            EventKind::Noop => {
+                return Err(Error::other("attempt to decode a noop event"));
+            }
             EventKind::CreateFile => {
                 let folder_id = decode_uuid(&mut *reader).await?;
                 let secret_id = decode_uuid(&mut *reader).await?;
